@@ -213,6 +213,11 @@ type viol struct {
 
 func (v *viol) Error() string { return v.v.Error() }
 
+var (
+	inflightSlot int
+	inflightName string
+)
+
 func TestCheck(t *testing.T) {
 	r := vk.New("C11", "model_checking")
 	quick := r.Quick()
@@ -272,8 +277,9 @@ func TestCheck(t *testing.T) {
 		for _, off := range offs {
 			var res string
 			name := fmt.Sprintf("%s mapoff=%d", sc.name, off)
+			inflightSlot, inflightName = shard, name
 			cfg := schedx.Config{Name: name, Body: body(sc, &res), Preemptions: bound, MapOff: off, Shard: shard, Shards: shards,
-				Deadline: time.Now().Add(r.Left() / time.Duration(n-k)), OnExec: vk.Beat, MaxSteps: 20000,
+				Deadline: time.Now().Add(r.Left() / time.Duration(n-k)), OnExec: vk.Beat, OnRun: func(p []int) { vk.Inflight(inflightSlot, inflightName, []string{fmt.Sprint(p)}) }, MaxSteps: 20000,
 				Check: func(out string, dl bool, choices []int) error {
 					if dl {
 						return &viol{vk.Violationf("deadlock:"+sc.name[:2], "a pledge never returns under schedule %v", choices), choices}
